@@ -408,7 +408,7 @@ fn main() {
             built.push((*p, ssrc, flips_script(&mut r, p, ssrc, which, true, which == 1)));
         }
     }
-    let nm = if thorough { 3000 } else { 360 };
+    let nm = if thorough { 1500 } else { 360 };
     for n in 0..nm {
         let p = profs[n % profs.len()];
         let ssrc = r.next() as u32;
